@@ -5,6 +5,9 @@
     conclin q    <X> <cfg> <k> <K> <site> <query> <args> <early|blocked> <result> <pre> <post>
     conclin qw   <X> <cfg> <k> <K> <site> <parked> <outcome of X on A> <outcome of X alone>
     conclin info … / conclin dump …     (descriptions for the reader of a replay)
+    conclin rd   <X> <Y> <cfg> <numLeaves> <k> <K> <site> <parked> <early|blocked> <result of Y> <result of Y alone>
+                 <final state> <twin's state after Y> <answer of X> <twin's answer before Y> <twin's answer after Y>
+                 (harness/fam_conc3.go, family `conclinrd`: a READER X parked at its k-th access, see `handleConcLinRd`)
 
   X was parked at its k-th access to the instrumented maps `Nodes` / `CachedLeaves` (or at a
   verifPoint site) while Y — another state-changing operation, or a read-only query — was
@@ -121,11 +124,124 @@ def handleConcLinQW (line : String) (toks : List String) : M Unit := do
         oracleFail kind s!"{x} parked at access {k} ({site}) while read-only queries ran: outcome {conc} differs from the outcome of {x} alone {alone}"
   | _ => parseError line
 
+/-! ### Readers parked in the middle of a call (family `conclinrd`, harness/fam_conc3.go)
+
+X is a read-only query with many map accesses (GetLeafHashPositions of all cached leaves,
+Prove of many leaves, GetMissingPositions of many targets, Write, GetStump, GetRoots) on a
+forest of some hundred leaves, parked at its k-th access; Y = Modify / Undo.
+
+ORACLE (property text: every query observes the state between two blocks, never a
+half-applied one — and one call observes ONE state): the answer of X is the twin's answer
+before Y or the twin's answer after Y, never a mixture (`conclin:rd.<X>-<Y>`); Y returns
+what it returns alone and the final state is the twin's state after Y (same kind); nothing
+hangs or panics unless the twin does (`conclin:crash`).
+
+MODEL (lock table): when X takes the READ lock in the regular pattern and touches nothing
+mutable before it, every access of X happens under that lock, hence a Y that takes the
+write lock stays BLOCKED while X is parked (`conclin:sched`) and X answers for the state
+before Y (`conclin:order`). -/
+
+/-- the table says: every access of method `x` to a mutable field happens under the read lock
+taken by `x` itself -/
+def wholeBodyUnderR (x : String) : Bool :=
+  match methodOfString? x with
+  | none => false
+  | some m =>
+    let i := table m
+    let mu := mutF table allMethods
+    i.lock == .r && i.regular && i.preCalls.isEmpty && (i.preReads ++ i.preWrites).all (fun f => !mu f)
+
+def takesWriteLock (y : String) : Bool :=
+  match methodOfString? y with
+  | none => false
+  | some m => (table m).lock == .w
+
+/-- atoms of an answer token -/
+def rdAtoms (a : String) : List String := if a == "-" then [] else a.splitOn ","
+
+/-- per atom: 0 = the twin's answers agree and so does X, 1 = X has the value before Y,
+2 = the value after Y, 3 = neither -/
+def rdClasses : List String → List String → List String → List Nat
+  | r :: rs, a :: as, b :: bs =>
+    (if a == b then (if r == a then 0 else 3) else if r == a then 1 else if r == b then 2 else 3) :: rdClasses rs as bs
+  | _, _, _ => []
+
+def rdClassName : Nat → String
+  | 1 => "before" | 2 => "after" | 0 => "same" | _ => "NEITHER"
+
+/-- runs of equal class over the atoms on which X's answer is informative (class ≠ 0):
+(class, first index, last index, number of atoms) -/
+def rdRuns (cls : List Nat) : List (Nat × Nat × Nat × Nat) :=
+  let rec go (l : List Nat) (i : Nat) (cur : Option (Nat × Nat × Nat × Nat)) (acc : List (Nat × Nat × Nat × Nat)) :=
+    match l with
+    | [] => (match cur with | some c => c :: acc | none => acc).reverse
+    | c :: rest =>
+      if c == 0 then go rest (i + 1) cur acc
+      else match cur with
+        | some (c0, f, _, n) => if c0 == c then go rest (i + 1) (some (c0, f, i, n + 1)) acc
+                                 else go rest (i + 1) (some (c, i, i, 1)) ((c0, f, i - 1, n) :: acc)
+        | none => go rest (i + 1) (some (c, i, i, 1)) acc
+  go cls 0 none []
+
+/-- "which part of the answer belongs to which state" -/
+def rdMixture (res pre post : String) : String :=
+  let r := rdAtoms res; let a := rdAtoms pre; let b := rdAtoms post
+  let cls := rdClasses r a b
+  let n (c : Nat) := (cls.filter (· == c)).length
+  let runs := rdRuns cls
+  let shown := (runs.take 6).map (fun (c, f, l, k) => s!"#{f}..#{l}:{k}x{rdClassName c}")
+  let firstOf (c : Nat) : String :=
+    match cls.findIdx? (· == c) with
+    | some i => s!" first {rdClassName c}-Y atom #{i}={r.getD i "?"} (before {a.getD i "?"}, after {b.getD i "?"});"
+    | none => ""
+  let lens := if r.length == a.length && r.length == b.length then s!"{r.length} atoms" else s!"atoms: answer {r.length}, before-Y {a.length}, after-Y {b.length}"
+  s!"{lens}; {n 1} as before Y, {n 2} as after Y, {n 3} as neither, {n 0} do not depend on Y;{firstOf 1}{firstOf 2}{firstOf 3} runs over the Y-dependent atoms: {" ".intercalate shown}{if runs.length > 6 then s!" … ({runs.length} runs)" else ""}"
+
+def rdSizeBucket (n : Nat) : String :=
+  if n < 64 then "0-63" else if n < 128 then "64-127" else if n < 256 then "128-255" else if n < 512 then "256-511" else "512+"
+
+def handleConcLinRd (line : String) (toks : List String) : M Unit := do
+  match toks with
+  | [x, y, _cfg, leaves, k, kmax, site, parked, ysched, yres, yalone, final, postY, res, pre, post] =>
+    let kind := s!"conclin:rd.{x}-{y}"
+    count kind line (pre != post)
+    bumpCount s!"dist:conclin:rd:leaves:{rdSizeBucket (leaves.toNat?.getD 0)}"
+    bumpCount s!"dist:conclin:rd:K:{rdSizeBucket (kmax.toNat?.getD 0)}"
+    bumpCount s!"dist:conclin:rd:k:{rdSizeBucket (k.toNat?.getD 0)}"
+    let bad (s : String) := s == "hang" || s == "panic"
+    if [yres, yalone, res, pre, post].any (· == "hang") || final == "hang" || postY == "hang" then
+      oracleFail "conclin:crash" s!"{x} parked at access {k} ({site}) with {y} started: a call did not return (deadlock watchdog): X={trunc res 40} Y={yres} (Y alone: {yalone}; X on the twin: {trunc pre 40} / {trunc post 40})"
+    else if res == "skipped" || yres == "skipped" || pre == "skipped" || post == "skipped" then pure ()
+    else
+      if parked != "1" then bumpCount "dist:conclin:notparked"
+      if (res == "panic" && !bad pre && !bad post) || (yres == "panic" && yalone != "panic") then
+        oracleFail "conclin:crash" s!"{x} parked at access {k} ({site}) with {y} started: panic (X={trunc res 40} Y={yres}) that the sequential twin does not show"
+      -- oracle: one call, one state
+      let m := if res == pre && res == post then "both" else if res == pre then "pre" else if res == post then "post" else "none"
+      bumpCount s!"dist:conclin:rd.{x}-{y}:{m}"
+      if pre != post then
+        bumpCount s!"dist:conclin:rd:moved:{rdSizeBucket (((rdClasses (rdAtoms pre) (rdAtoms pre) (rdAtoms post)).filter (· != 0)).length)}"
+      if m == "none" then
+        if res == "err" || res.startsWith "err:" || res == "panic" || res == "malformed" then
+          oracleFail kind s!"{x} (forest of {leaves} leaves) parked at its access {k} of {kmax} ({site}), {y} {ysched}: the call returned {res}; before {y} it returns {trunc pre 150} and after it {trunc post 150}"
+        else
+          oracleFail kind s!"{x} (forest of {leaves} leaves) parked at its access {k} of {kmax} ({site}), {y} {ysched}: the answer is neither the answer before {y} nor the answer after it but a MIXTURE: {rdMixture res pre post}"
+      -- Y and the final state
+      if yres != yalone || final != postY then
+        oracleFail kind s!"{x} parked at its access {k} of {kmax} ({site}), {y} {ysched}: {y} returned {yres} and left {final}; alone it returns {yalone} and leaves {postY}"
+      -- model prediction from the lock table
+      if parked == "1" && wholeBodyUnderR x && takesWriteLock y then
+        expectEq "conclin:sched" s!"{y} blocked while {x} is parked at {site}" s!"{y} {ysched} while {x} is parked at {site}"
+        if ysched == "blocked" then
+          expectEq "conclin:order" s!"{x} = {trunc pre 200} (the state before {y})" s!"{x} = {trunc res 200} (the state before {y})"
+  | _ => parseError line
+
 def handleConcLin (line : String) (toks : List String) : M Unit := do
   match toks with
   | "pair" :: rest => handleConcLinPair line rest
   | "q" :: rest => handleConcLinQ line rest
   | "qw" :: rest => handleConcLinQW line rest
+  | "rd" :: rest => handleConcLinRd line rest
   | "info" :: _ => bumpCount "conclininfo"
   | "dump" :: _ => bumpCount "conclindump"
   | _ => parseError line
